@@ -626,42 +626,52 @@ func c04Respec(c *core.Ctx, pkg *packages.Package) {
 					}
 				}
 				r := "ret:other"
+				r0, r1 := "", ""
+				if len(p.Rets) >= 1 {
+					r0 = c17Strip(p.Rets[0])
+				}
+				if len(p.Rets) == 2 {
+					r1 = c17Strip(p.Rets[1])
+				}
 				if len(p.Rets) == 2 {
 					switch {
-					case strings.HasSuffix(p.Rets[0], ".0") && strings.HasSuffix(p.Rets[1], ".1") && strings.Contains(p.Rets[0], "evaluationFn("):
+					case strings.HasSuffix(r0, ".0") && strings.HasSuffix(r1, ".1") && strings.Contains(r0, "evaluationFn("):
 						r = "ret:fnresult"
-					case strings.Contains(p.Rets[0], ".eval(") || (len(p.RetX) == 1):
+					case strings.Contains(r0, ".eval(") || (len(p.RetX) == 1):
 						r = "ret:retry"
-					case strings.HasSuffix(p.Rets[1], ".1") && strings.Contains(p.Rets[1], "evaluationFn("):
+					case strings.HasSuffix(r1, ".1") && strings.Contains(r1, "evaluationFn("):
 						r = "ret:err"
-					case strings.Contains(p.Rets[1], "determineError("):
+					case strings.Contains(r1, "determineError("):
 						r = "ret:nofnerr"
 					}
-				} else if len(p.Rets) == 1 && strings.Contains(p.Rets[0], ".eval(") {
+				} else if len(p.Rets) == 1 && strings.Contains(r0, ".eval(") {
 					r = "ret:retry"
 				}
 				return strings.Join(append(s, r), ",")
 			},
 			Expect: func(a map[string]bool) string {
+				// Reference (history independence): a node without an evaluation function is not stuck: it refreshes the
+				// operand types from the current scope (determineError does) and looks the function up again; only if there
+				// is still none is the mismatch reported. After a type-guard correction the retry is unconditional, so the
+				// point at which both operands changed type is answered from the scope's types as well.
+				var s []string
 				if a["nofn"] {
-					return "determineError,ret:nofnerr"
+					s = append(s, "determineError", "fn=lookup")
+					if a["nofn2"] {
+						return strings.Join(append(s, "ret:nofnerr"), ",")
+					}
 				}
+				s = append(s, "CALLFN")
 				if !a["err"] || !a["guard"] {
-					return "CALLFN,ret:fnresult"
+					return strings.Join(append(s, "ret:fnresult"), ",")
 				}
-				s := []string{"CALLFN"}
 				if a["isLeft"] {
 					s = append(s, "leftType=ActualType")
 				}
 				if a["isRight"] {
 					s = append(s, "rightType=ActualType")
 				}
-				s = append(s, "fn=lookup")
-				if a["nofn2"] {
-					s = append(s, "ret:err")
-				} else {
-					s = append(s, "eval", "ret:retry")
-				}
+				s = append(s, "fn=lookup", "eval", "ret:retry")
 				return strings.Join(s, ",")
 			}})
 	}
